@@ -102,6 +102,7 @@ impl Family for Fam {
             6 => vec![CpcSketch::verif_determine_flavor(a[0] as u8, a[1] as u32) as i128],
             7 => vec![CpcSketch::verif_determine_correct_offset(a[0] as u8, a[1] as u32) as i128],
             9 => vec![CpcSketch::verif_determine_pseudo_phase(a[0] as u8, a[1] as u32) as i128],
+            32 => vec![CpcSketch::max_serialized_bytes(a[0] as u8) as i128],
             30 => {
                 // a fresh sketch with `full` complete columns and `extra` rows of the next one, rows scrambled;
                 // then serialize + deserialize
